@@ -1,3 +1,4 @@
+import ast
 from typing import Iterator
 
 from .._change import Change
@@ -37,6 +38,10 @@ class MinMaxValue(GenericValue):
         return self._file._value_to_code(self._new_value)
 
     def _get_changes(self) -> Iterator[Change]:
+        if isinstance(self._ast_node, ast.JoinedStr):
+            # f-strings are controlled by the user and never changed
+            return
+
         new_token = value_to_token(self._new_value)
         if not self.cmp(self._old_value, self._new_value):
             flag = "fix"
